@@ -575,6 +575,27 @@ def vyukov_bounded(ctx):
 
 
 # ---------------------------------------------------------------------------------------------------------------
+def _resolve_construct(fn, nid, at=None):
+    """the (payload, tag) construction a CAS operand denotes: through copies, casts and locals (the definition that reaches the CAS `at`;
+    same-named locals of sibling scopes are told apart by reaching definitions)"""
+    for _ in range(8):
+        dn = fn.nodes[nid]
+        if dn["k"] == "cast" or (dn["k"] == "construct" and len(fn.kids(nid)) == 1):
+            nid = fn.kids(nid)[0]
+        elif dn["k"] == "ref" and dn.get("dk") == "local":
+            d = flow.unique_def(fn, dn["name"])
+            if d is None and at is not None:
+                rd = [x for x in _reaching_defs(fn, dn["name"], at)]
+                if len(rd) == 1 and rd[0][0] == "def" and rd[0][1] is not None:
+                    d = rd[0][1]
+            if d is None:
+                break
+            nid = d
+        else:
+            break
+    return nid if fn.nodes[nid]["k"] == "construct" else None
+
+
 def kfifo(ctx):
     rid = "KF.aba-tags"
     ctx.rule(rid, "k-FIFO: every CAS on a tagged word installs a value whose tag differs from the expected value's tag by a non-zero constant "
@@ -594,11 +615,19 @@ def kfifo(ctx):
                 e = a["nid"]
                 kids = fn.kids(e)
                 desired = kids[2]
-                dtxt = _deep(fn, desired)
-                # the desired value is constructed with a mark/tag argument <expected>.mark() + c
-                m = re.search(r"\.mark\(\) \+ (\d+)", dtxt)
                 inst = "%s#cas(%s)@%s" % (fn.pat, a["field"].split("::")[-1], fn.expr(desired)[:40])
-                ctx.check(bool(m) and int(m.group(1)) != 0, rid, inst, "desired tag = expected tag + %s" % (m.group(1) if m else "?"),
+                # the desired value is constructed as (payload, tag) with tag = <some value's>.mark() + c, c != 0: the tag argument is evaluated with
+                # mark() = 5 and mark() = 9 (finite evaluation; the spelling `x.mark() + 1`, `1 + x.mark()`, a named local ... does not matter)
+                des = _resolve_construct(fn, desired, e)
+                delta = None
+                if des is not None and len(fn.kids(des)) >= 2 and flow.has_src(fn, fn.kids(des)[1], "call:mark"):
+                    try:
+                        d1 = evalx(fn, fn.kids(des)[1], {"call:mark": (lambda: 5)}) - 5
+                        d2 = evalx(fn, fn.kids(des)[1], {"call:mark": (lambda: 9)}) - 9
+                        delta = d1 if d1 == d2 else None
+                    except Unknown:
+                        delta = None
+                ctx.check(delta is not None and delta != 0, rid, inst, "desired tag = expected tag + %s" % delta,
                           "the CAS at line %d installs %s whose ABA tag is not derived from the expected value's tag plus a non-zero constant" % (fn.nodes[e]["l"], fn.expr(desired)),
                           fn.where(e), fn=fn)
         if n_cas < 6:
@@ -658,15 +687,8 @@ def kfifo(ctx):
                 continue
             e = a["nid"]
             des = fn.kids(e)[2]
-            for _ in range(8):
-                dn = fn.nodes[des]
-                if dn["k"] == "cast" or (dn["k"] == "construct" and len(fn.kids(des)) == 1):
-                    des = fn.kids(des)[0]
-                elif dn["k"] == "ref" and dn.get("dk") == "local" and flow.unique_def(fn, dn["name"]) is not None:
-                    des = flow.unique_def(fn, dn["name"])
-                else:
-                    break
-            if fn.nodes[des]["k"] != "construct" or len(fn.kids(des)) < 2:
+            des = _resolve_construct(fn, des, e)
+            if des is None or len(fn.kids(des)) < 2:
                 ctx.broken.append("%s: desired value of the %s CAS is not a marked_idx(index, tag) construction" % (fn.pat, a["field"].split("::")[-1]))
                 continue
             idx_expr = fn.kids(des)[0]
